@@ -55,12 +55,19 @@ def check(ctx) -> None:
         ok, why = False, ""
         if isinstance(idx, ast.Name):
             a = assignments_to(f, idx.id)
-            if len(a) == 1 and isinstance(a[0][1], ast.Subscript) and isinstance(a[0][1].slice, ast.Name):
-                idname = a[0][1].slice.id
-                b = assignments_to(f, idname)
-                if len(b) == 1 and isinstance(b[0][1], ast.Subscript) and isinstance(b[0][1].value, ast.Name):
-                    carrier = b[0][1].value.id
-                    key = texts(ctx.ev.eval(b[0][1].slice, s.env))
+            idexpr = None
+            if len(a) == 1 and isinstance(a[0][1], ast.Subscript):
+                sl = a[0][1].slice
+                if isinstance(sl, ast.Name):
+                    b = assignments_to(f, sl.id)
+                    if len(b) == 1:
+                        idexpr = b[0][1]
+                else:
+                    idexpr = sl  # map[carrier[id]] without an intermediate local
+            if True:
+                if isinstance(idexpr, ast.Subscript) and isinstance(idexpr.value, ast.Name):
+                    carrier = idexpr.value.id
+                    key = texts(ctx.ev.eval(idexpr.slice, s.env))
                     zc = zip_partner(f, carrier)
                     zv = zip_partner(f, s.value.id)
                     if zc and zv and zc[0] is zv[0] and key == {pl.id_col.text}:
@@ -81,7 +88,10 @@ def check(ctx) -> None:
         if not ok:
             ctx.finding("C10-A1", "mcs_search.MCSSearch.find:write-back-id", s.where(), "the stored MCS result and the id used to locate its row are not taken from the same result tuple (%s)" % why)
     # id travels with the data: keys of the condition are copied into the result
-    copies = [n for n in own_nodes(f.node) if isinstance(n, ast.For) and ".items()" in unparse(n.iter)]
+    copies = [n for n in own_nodes(f.node) if isinstance(n, ast.For) and isinstance(n.iter, ast.Call) and isinstance(n.iter.func, ast.Attribute) and n.iter.func.attr == "items"]
+    # ... or merged in one go: <stored record>.update(<selected condition>)
+    stored = {s_.value.id for s_ in wb}
+    copies += [c for c in calls(f) if isinstance(c.func, ast.Attribute) and c.func.attr == "update" and isinstance(c.func.value, ast.Name) and c.func.value.id in stored and len(c.args) == 1 and isinstance(c.args[0], ast.Name)]
     ctx.instance("C10-A1", "the condition's keys (incl. id) are copied into the stored result", f.loc(copies[0]) if copies else f.loc(), ok=bool(copies))
     if not copies:
         ctx.finding("C10-A1", "mcs_search.MCSSearch.find:key-copy", f.loc(), "the selected condition's keys are no longer copied into the stored record")
@@ -289,11 +299,20 @@ def _accumulates_in_order(en: Func, pcalls) -> bool:
         if not (isinstance(stmt, ast.Assign) and isinstance(stmt.targets[0], ast.Name)):
             return False
         gname = stmt.targets[0].id
-        loops = [n for n in own_nodes(en.node) if isinstance(n, ast.For) and isinstance(n.iter, ast.Name) and n.iter.id == gname and isinstance(n.target, ast.Name)]
+        # `for r in G` or `for n, r in enumerate(G[, start])`
+        loops = []
+        for n in own_nodes(en.node):
+            if not isinstance(n, ast.For):
+                continue
+            it, tg = n.iter, n.target
+            if isinstance(it, ast.Call) and getattr(it.func, "id", "") == "enumerate" and it.args and isinstance(tg, ast.Tuple) and len(tg.elts) == 2:
+                it, tg = it.args[0], tg.elts[1]
+            if isinstance(it, ast.Name) and it.id == gname and isinstance(tg, ast.Name):
+                loops.append((n, tg.id))
         if len(loops) != 1:
             return False
-        lp = loops[0]
-        apps = [x for x in ast.walk(lp) if isinstance(x, ast.Call) and isinstance(x.func, ast.Attribute) and x.func.attr == "append" and x.args and isinstance(x.args[0], ast.Name) and x.args[0].id == lp.target.id and isinstance(x.func.value, ast.Name)]
+        lp, item = loops[0]
+        apps = [x for x in ast.walk(lp) if isinstance(x, ast.Call) and isinstance(x.func, ast.Attribute) and x.func.attr == "append" and x.args and isinstance(x.args[0], ast.Name) and x.args[0].id == item and isinstance(x.func.value, ast.Name)]
         if len(apps) != 1:
             return False
         lname = apps[0].func.value.id
